@@ -28,7 +28,7 @@ LEVEL_TEXT = ('exploration: ~6*10^5 (quick) / ~5*10^6 (thorough) printed numbers
 LEVEL_NOTE = 'trusted base: vf/exact_strings.py, vf/exactq.py, CPython float()/Decimal() parsers; values not generated are not covered'
 TECHNIQUE = 'runtime reference-model monitor: exact decimal/binary comparison oracle on every printed number'
 
-CASES = {'quick': 36000, 'thorough': 300000}
+CASES = {'quick': 28000, 'thorough': 300000}
 KINDS = ['repr', 'nstr', 'nstr', 'str', 'opts', 'mpc', 'special', 'nstr']
 VCLASSES = ['rand', 'dectie', 'dectie4', 'dectie-width', 'tails', 'pow10', 'exactdec', 'long', 'huge', 'huge-tie', 'rand']
 LOG2_10 = math.log(10, 2)
